@@ -5,7 +5,7 @@ from mc import strictjson
 import os
 import tempfile
 
-from mc import subchunk, core, pelgen, decode, impl, clidrv
+from mc import subchunk, core, pelgen, decode, impl, clidrv, imphook
 from mc.core import ChunkResult
 
 PROPERTY = 'C06'
@@ -45,6 +45,7 @@ def plan(tier, seed):
     ch.append({'k': 'e2e_cli'})
     ch.append({'k': 'numbers'})
     ch.append({'k': 'equal_doc'})
+    ch.append({'k': 'plugin_out'})
     if tier == 'thorough':
         for t in TOKENS9:
             for t2 in TOKENS9:
@@ -106,6 +107,66 @@ def eval_case(case):
         out.extend(_numbers(case, pt))
     elif case['k'] == 'equal_doc':
         out.extend(_equal_doc(case, pt))
+    elif case['k'] == 'plugin_out':
+        out.extend(_plugin_out(case, pt))
+    return out
+
+
+PLUGIN_TABLE = {'srcparsers.bsrc.bsrc': 'by-payload', 'udparsers.b0100.b0100': 'by-payload'}
+
+
+def _plugin_out(case, pt):
+    """Plug-in output of every kind (objects, lists, strings, null, nothing, NaN / Infinity / overflowing numbers, deep
+    nesting, huge integers, failures) from an SRC parser and a user-data parser: whatever the tool decides to show, the
+    text it prints (library, -f, -a, -j) is one valid JSON document."""
+    if not imphook.STATE['installed'] or imphook.BEHAVIOUR != PLUGIN_TABLE:
+        imphook.install(serve_all=False, behaviour=PLUGIN_TABLE)
+        imphook.forget_modules()
+    out = []
+    bad = lambda what, detail: out.append({'key': 'C06:' + what, 'what': '%s: %s' % (what, detail), 'case': case})
+    words = list(pelgen.SRC_DEFAULT_WORDS)
+    words[7] = 0xDDEEFF00 | (case['src'] if case['src'] is not None else 0)
+    secs = [{'t': 'PS', 'ascii': 'BC8A1234'.ljust(32), 'words': words}]
+    if case['ud'] is not None:
+        secs.append({'t': 'UD', 'comp': 0x0100, 'sub': 1, 'payload': bytes([case['ud'], 0x41, 0x42]).hex()})
+        secs.append({'t': 'ED', 'creator': 'B', 'comp': 0x0100, 'sub': 1, 'payload': bytes([case['ud'], 0x43]).hex()})
+    spec = pelgen.pel_from_spec({'eid': 0x50000C01, 'plid': 0x50000C01, 'creator': 'B', 'sections': secs})
+    b = pelgen.encode_pel(spec)
+    plugins = case['src'] is not None
+    r = decode.parse(b, plugins=plugins)
+    if r['kind'] == 'badjson':
+        bad('plugin-output-not-json', 'parsePEL text is not JSON (%s) with SRC parser behaviour %s, user data parser behaviour %s'
+            % (r['msg'], case['src'], case['ud']))
+    out.extend(_equal_doc({'spec': spec, 'plugins': plugins}, pt))
+    for v in out:
+        v['case'] = case
+    with tempfile.TemporaryDirectory(prefix='c06p_', dir=clidrv.odd_root()) as d:
+        os.mkdir(os.path.join(d, 'in'))
+        os.mkdir(os.path.join(d, 'out'))
+        with open(os.path.join(d, 'in', 'p_50000C01'), 'wb') as f:
+            f.write(b)
+        with open(os.path.join(d, 'in', 'q_50000C02'), 'wb') as f:
+            f.write(pelgen.encode_pel(pelgen.pel_from_spec({'eid': 0x50000C02, 'plid': 0x50000C02, 'sections': [{'t': 'PS'}]})))
+        P = [] if plugins else ['-P']
+        for argv in (['-f', os.path.join(d, 'in', 'p_50000C01')], ['-p', os.path.join(d, 'in'), '-a'], ['-p', os.path.join(d, 'in'), '-l'],
+                     ['-p', os.path.join(d, 'in'), '-i', '50000C01']):
+            r = clidrv.run_main(argv + P)
+            if r.exc:
+                bad('plugin-output-exception', '%s: %s' % (argv[-2:], r.exc))
+            elif r.status == 0 and r.stdout.strip() and r.stdout.strip() != 'PEL not found':
+                try:
+                    strictjson.loads(r.stdout)
+                except Exception as e:
+                    bad('plugin-output-not-json', '%s prints text that is not JSON (%s) with SRC parser behaviour %s, user data parser behaviour %s'
+                        % (argv[-2:] if argv[0] == '-p' else '-f', e, case['src'], case['ud']))
+        clidrv.run_main(['-p', os.path.join(d, 'in'), '-j', '-o', os.path.join(d, 'out')] + P)
+        for fn in sorted(os.listdir(os.path.join(d, 'out'))):
+            with open(os.path.join(d, 'out', fn), encoding='utf-8', errors='surrogateescape') as f:
+                try:
+                    strictjson.loads(f.read())
+                except Exception as e:
+                    bad('plugin-output-not-json', '-j wrote %s which is not JSON (%s) with SRC parser behaviour %s, user data parser behaviour %s'
+                        % (fn.split('.', 1)[-1], e, case['src'], case['ud']))
     return out
 
 
@@ -446,6 +507,16 @@ def run_chunk(chunk):
         for spec in specs:
             for plugins in (True, False):
                 _do(res, {'k': 'equal_doc', 'spec': spec, 'plugins': plugins}, '"doc', every=5)
+    elif k == 'plugin_out':
+        try:
+            for a in [None] + list(range(0x0C)):
+                for b in [None] + list(range(0x0C)):
+                    if a is None and b is None:
+                        continue
+                    _do(res, {'k': 'plugin_out', 'src': a, 'ud': b}, '"plugin', every=7)
+        finally:
+            imphook.uninstall()
+            imphook.forget_modules()
     elif k == 'numbers':
         for i in range(0, len(NUMBER_TEXTS), 4):
             grp = NUMBER_TEXTS[i:i + 4]
